@@ -43,7 +43,11 @@ def frame(scene):
         'type': np.array([r[3] for r in rows], dtype=int),
     })
     if scene.get('index') is not None:
-        df.index = pd.Index(scene['index'])
+        idx = scene['index']
+        if scene.get('index_kind') == 'range' and len(idx) > 1:
+            df.index = pd.RangeIndex(idx[0], idx[0] + (idx[1] - idx[0]) * len(idx), idx[1] - idx[0])   # a genuine RangeIndex
+        else:
+            df.index = pd.Index(idx)
     if scene.get('extra') == 'objects':
         # superfluous columns (documented as warning-only) holding arbitrary objects
         n = len(df)
@@ -679,3 +683,61 @@ def quantised_scene(rng, nce=1):
         for t, h in enumerate(hs):
             rows.append([c, -15.0 * t - 0.5 * ci, float(h), 1])
     return {'rows': dedupe(rows), 'names': names, 'order': 'desc', 'fam': 'quantised'}
+
+
+def ulp_dt_scene(rng):
+    """One layer seen by (nearly) every measurement; pairs of time stamps of one instrument differ by one ulp
+    (e.g. -(0.1*3) and -0.3): distinct measurements that any rounding of dt would merge."""
+    rows = []
+    n = int(rng.integers(20, 60))
+    for ci, c in enumerate(['a', 'b'][:int(rng.integers(1, 3))]):
+        for t in range(n):
+            dt = -0.1 * (3 * t + 1) - ci * 1e-3
+            rows.append([c, dt, 900.0 + float(rng.integers(0, 40)), 1])
+            rows.append([c, float(np.nextafter(dt, 0.0)), 905.0 + float(rng.integers(0, 40)), 1])
+    k = int(rng.integers(0, 3))
+    for j in range(k):
+        rows[int(rng.integers(len(rows)))][2:] = [float('nan'), 0]
+    return {'rows': dedupe(rows), 'names': sorted(set(r[0] for r in rows)), 'order': 'desc', 'fam': 'ulp_dt'}
+
+
+def regroup_scene(rng):
+    """Two overlapping clouds separated in time, each with a few stray hits in the height range of the other:
+    slicing (by height) and grouping (in time) cut the hits differently, and a group inherits the id of a slice
+    with the SAME number of hits but not the same hits."""
+    n_low = int(rng.integers(25, 36))
+    n_high = int(rng.integers(35, 46))
+    k = int(rng.integers(1, 4))
+    t_early = np.arange(-900.0, -600.0, 9.0)[:n_low + k]
+    t_late = np.arange(-300.0, 0.0, 7.0)[:n_high + k]
+    low = np.sort(rng.uniform(950, 1100, n_low))
+    high = np.sort(rng.uniform(1150, 1400, n_high))
+    early = np.concatenate([rng.permutation(low[:-3]), low[-3:], rng.uniform(1150, 1160, k)])
+    late = np.concatenate([rng.uniform(1090, 1100, k), high[:3], rng.permutation(high[3:])])
+    rows = [['A', float(t), float(h), 1] for t, h in zip(np.concatenate([t_early[:len(early)], t_late[:len(late)]]),
+                                                         np.concatenate([early[:len(t_early)], late[:len(t_late)]]))]
+    return {'rows': dedupe(rows), 'names': ['A'], 'order': 'asc', 'fam': 'regroup'}
+
+
+def nsc_levels_scene(rng):
+    """Two zero-okta slices (3 hits each) inside the MSA buffer zone that merge into a 1-okta group: the
+    messages of the three levels differ (slices NCD, groups / layers NSC)."""
+    rows = []
+    n = 40
+    lo = sorted(int(x) for x in rng.permutation(n)[:3])
+    hi = sorted(int(x) for x in rng.permutation(n)[:3])
+    for t in range(n):
+        hs = []
+        if t in lo:
+            hs.append(5000.0 + float(rng.integers(0, 5)))
+        if t in hi:
+            hs.append(5150.0 + float(rng.integers(0, 5)))
+        if not hs:
+            rows.append(['a', -15.0 * t, float('nan'), 0])
+        for k_, h in enumerate(sorted(hs)):
+            rows.append(['a', -15.0 * t, h, k_ + 1])
+    return {'rows': dedupe(rows), 'names': ['a'], 'order': 'desc', 'fam': 'nsc_levels'}
+
+
+PRMS_NSC_LEVELS = {'MSA': 4000.0, 'MSA_HIT_BUFFER': 1500.0, 'MAX_HITS_OKTA0': 3, 'SLICING_PRMS': {'distance_threshold': 0.05},
+                   'MIN_SEP_VALS': [250.0, 1000.0]}
